@@ -135,6 +135,10 @@ pub struct Profile {
     pub families: Vec<(u32, Family)>,
     pub allow_empty_dims: bool,
     pub max_dim: usize,
+    /// Occasionally give graph inputs large dims (7, 8, 16, 17, 32, 33) so that
+    /// vectorised / blocked code paths with remainders are reached; the element
+    /// count stays <= 4096. Off in the pre-existing profiles.
+    pub big_dims: bool,
 }
 
 impl Profile {
@@ -179,6 +183,7 @@ impl Profile {
             ],
             allow_empty_dims: true,
             max_dim: 5,
+            big_dims: false,
         }
     }
     /// Ops that can run in place / commute, data movement, multi-consumer values.
@@ -209,6 +214,7 @@ impl Profile {
             ],
             allow_empty_dims: false,
             max_dim: 5,
+            big_dims: false,
         }
     }
     /// Every family, including the ones appended for the operator-level
@@ -242,6 +248,7 @@ impl Profile {
             (4, Attn),
             (4, LayoutAny),
         ]);
+        p.big_dims = true;
         p
     }
     pub fn with_random(mut self) -> Profile {
@@ -1444,7 +1451,19 @@ pub fn build(raw: &RawGraph, profile: &Profile) -> Built {
             _ => DType::Bool,
         };
         let rank = (ri.rank as usize).min(4);
-        let shape: Vec<usize> = (0..rank).map(|d| dim_size(ri.dims[d], profile)).collect();
+        let mut shape: Vec<usize> = (0..rank).map(|d| dim_size(ri.dims[d], profile)).collect();
+        if profile.big_dims {
+            // raw values whose low bits are 0b111 select a large size (the small-size table only looks at the high bits)
+            for d in 0..rank {
+                if ri.dims[d] & 7 == 7 && shape[d] > 0 {
+                    shape[d] = [7usize, 8, 16, 17, 32, 33, 9, 15][(ri.dims[d] as usize >> 3) % 8];
+                }
+            }
+            while shape.iter().product::<usize>() > 4096 {
+                let i = (0..rank).max_by_key(|d| shape[*d]).unwrap();
+                shape[i] = (shape[i] / 2).max(1);
+            }
+        }
         let name = format!("in{i}");
         let dims: Vec<Dim> = shape
             .iter()
